@@ -350,3 +350,24 @@ def run_section(rep, name, cases, line_fn, impl_fn, oracle_fn=None, nontrivial_f
         i = len(cases) // 2
         rep.samples.append({'section': name, 'line': lines[i][:300], 'answer': model[i][:300]}
                            if sample_fn is None else sample_fn(cases[i]))
+
+
+def run_code_section(rep, name, cases, oracle_fn, rule='', kind_fn=None, nontrivial_fn=None):
+    """A section judged on the implementation alone (inputs too long for a protocol line of the model driver, or an entry
+    point the driver has no command for).  oracle_fn(case) -> None | (signature, description[, smaller case for the replay]).
+    Counted in the evidence like a correspondence section; `rule` says what is run and what is demanded."""
+    sec = rep.section(name)
+    sec['rule'] = rule
+    sec['code_only'] = True
+    nontrivial = set()
+    for c in cases:
+        sec['cases'] += 1
+        if kind_fn:
+            k = kind_fn(c)
+            sec['dist'][k] = sec['dist'].get(k, 0) + 1
+        if nontrivial_fn is None or nontrivial_fn(c):
+            nontrivial.add(json.dumps(c, sort_keys=True, default=str))
+        r = oracle_fn(c)
+        if r:
+            rep.add_failure(r[0], r[1], {'section': name, 'case': r[2] if len(r) > 2 else c})
+    sec['distinct_nontrivial'] += len(nontrivial)
